@@ -42,6 +42,9 @@ def cfg_plan(tier):
     return c64, c32, bash, skipped
 
 
+QUICK_CAP = 6000        # ops per area and word size in the quick tier (stratified thinning)
+THOROUGH_CAP = 60000
+
 # ---------------------------------------------------------------------------------------------
 # area adapters: (area id, harness source, Lean driver, fn(ctx, exe, w) -> op lines,
 #                 uses bash-f?, op families that are word-size specific by design)
@@ -141,6 +144,13 @@ def run(ctx):
         for w, cfgs, refcfg in ((64, c64 + (cbash if uses_bash else []), "asan"), (32, c32, "w32")):
             refexe = ctx.cc(harness, refcfg, name="%s-%s" % (area, refcfg))
             ops = gen_fixed(ctx, fn, refexe, w, salt * 10 + (w == 32))
+            cap = QUICK_CAP if ctx.tier == "quick" else THOROUGH_CAP
+            if len(ops) > cap:
+                # stratified thinning keeps every op family and the corpus head
+                head = ops[:200]
+                rest = ops[200:]
+                step = -(-len(rest) // (cap - 200))
+                ops = head + rest[::step]
             ref_out, err, rc = ctx.run_lines(refexe, ops)
             if rc != 0 or len(ref_out) != len(ops):
                 disagreements.append((area, refcfg, "crash", ops[min(len(ref_out), len(ops) - 1)], "CRASH rc=%d %s" % (rc, err[-200:]), ""))
